@@ -174,7 +174,7 @@ def plan(tier, seed):
     cases = []
     for i in range(n):
         cases.append(dict(name=f"sim-{i}", kind="sim", spec_seed=seed * 100003 + i, steps=14 if tier == "quick" else 25, timeout=240))
-    for i in range(10 if tier == "quick" else 150):
+    for i in range(24 if tier == "quick" else 200):
         cases.append(dict(name=f"tie-{i}", kind="tie", spec_seed=seed * 100003 + 70000 + i, steps=14, timeout=240))
     if tier == "thorough":
         for i in range(60):
@@ -194,6 +194,11 @@ def gen_spec(case):
             n["rate"] = max(n["rate"], 13)
         return spec
     if case["kind"] == "tie":  # zero delays + commensurate rates + many buffered / skipped non-blocking connections: exact arrival/start ties
+        # odd cases: buffered connections only on forward edges (skipped or not), so that a wrong tie rule shows in the record
+        # instead of turning a cycle into a deadlock (which this check can only call inconclusive)
+        if case["spec_seed"] % 2:
+            return S.rand_spec(case["spec_seed"], zero_bias=1.0, p_buffer=0.8, p_fwd_skip=0.7, p_edge=0.8, allow_blocking=rnd.random() < 0.2, n_min=3, n_max=4,
+                               buffer_back=False)
         return S.rand_spec(case["spec_seed"], zero_bias=1.0, p_buffer=0.6, p_fwd_skip=0.4, allow_blocking=rnd.random() < 0.3, n_max=4)
     zb = 0.25 if rnd.random() < 0.5 else 0.0
     return S.rand_spec(case["spec_seed"], zero_bias=zb)
